@@ -19,6 +19,9 @@ int g_pred[2]; _Bool g_verdict[2];
 #endif
 _Bool g_dirty;
 int g_w11;
+#ifdef UNIT_QUEUE
+Q *g_q; int g_owe, g_hold, g_mydqn; _Bool g_seen_empty_locked;
+#endif
 #ifdef UNIT_ORDERED
 Slot g_S[2]; Slot g_anon; WList *g_rm_list; long g_rm_idx; WList *g_ins_list; long g_ins_idx; _Bool g_lt01, g_lt10, g_sort_calls;
 #endif
